@@ -21,6 +21,8 @@ func planC10(c *Ctx) epochPlan {
 		pl.deepDev = 2
 		pl.shards = 16
 	}
+	// dedicated scenario of the known finding (AgeSignificance 0: adjusted fitness collapses to 0)
+	pl.scenarios = append(pl.scenarios, EpochScenario{Seed: "hbd3", Cfg: 31, Fit: 4, Policy: "R3", Mode: "whole", Epochs: 3})
 	return pl
 }
 
